@@ -104,11 +104,23 @@ func parsePromQLQuery(query string, startTime, endTime uint32, myid int64) ([]*s
 	for _, labelEntry := range selectors {
 		for _, entry := range labelEntry {
 			if entry.Name != "__name__" {
+				tagValue := entry.Value
+				tagOperator := sutils.TagOperator(entry.Type)
+				if tagValue == "*" && (tagOperator == sutils.Equal || tagOperator == sutils.NotEqual) {
+					// A tags filter with the value "*" stands for any value of the tag.
+					// The label value "*" itself is matched by a regex.
+					tagValue = `\*`
+					if tagOperator == sutils.Equal {
+						tagOperator = sutils.Regex
+					} else {
+						tagOperator = sutils.NegRegex
+					}
+				}
 				tagFilter := &structs.TagsFilter{
 					TagKey:          entry.Name,
-					RawTagValue:     entry.Value,
-					HashTagValue:    xxhash.Sum64String(entry.Value),
-					TagOperator:     sutils.TagOperator(entry.Type),
+					RawTagValue:     tagValue,
+					HashTagValue:    xxhash.Sum64String(tagValue),
+					TagOperator:     tagOperator,
 					LogicalOperator: sutils.And,
 				}
 				mQuery.TagsFilters = append(mQuery.TagsFilters, tagFilter)
